@@ -3,11 +3,14 @@ package props
 import (
 	"bytes"
 	"context"
+	"encoding/base64"
 	"encoding/json"
 	"errors"
 	"fmt"
 	"hash/fnv"
 	"net/http"
+	"net/http/httptest"
+	"net/url"
 	"slices"
 	"sort"
 	"strings"
@@ -284,42 +287,14 @@ func c05(env *core.Env, unify bool) {
 	}
 	// A registry between the client and the library's server that has a page limit
 	// of its own: it cuts a longer page down and says where to go on with a Link
-	// header, as the distribution specification lets it.
+	// header, as the distribution specification lets it - either by naming the last
+	// item, or with a continuation token that only it understands.
 	ownLimit := 0
 	if outer != nil && what != "Referrers" && c.Bool("registry-own-limit", 1, 4) {
 		ownLimit = c.Range("registry-own-limit.n", 1, 3)
-		outer.Mutate = func(req *http.Request, resp *simnet.Response) {
-			if resp.Status != 200 {
-				return
-			}
-			var doc map[string]json.RawMessage
-			if json.Unmarshal(resp.Body, &doc) != nil {
-				return
-			}
-			key := "tags"
-			if _, ok := doc["repositories"]; ok {
-				key = "repositories"
-			}
-			var items []string
-			if json.Unmarshal(doc[key], &items) != nil || len(items) <= ownLimit {
-				return
-			}
-			env.Fault("registry-cuts-page-to-own-limit")
-			items = items[:ownLimit]
-			doc[key], _ = json.Marshal(items)
-			resp.Body, _ = json.Marshal(doc)
-			resp.DeclaredLen = int64(len(resp.Body))
-			resp.Header.Set("Content-Length", fmt.Sprint(len(resp.Body)))
-			u := *req.URL
-			q := u.Query()
-			q.Set("last", items[len(items)-1])
-			u.RawQuery = q.Encode()
-			resp.Header.Set("Link", fmt.Sprintf("<%s>; rel=\"next\"", u.RequestURI()))
-		}
+		outer.Handler = ownLimitRegistry(env, outer.Handler, ownLimit, c.Bool("registry-own-limit.token-links", 1, 2))
 	}
 	if faultKind == "transport" {
-		limitMutate := outer.Mutate
-		_ = limitMutate
 		tfault := []string{"drop-response", "status-500", "bad-json", "truncated-body", "drop-request"}[c.Int("tfault", 5)]
 		isList := func(req *http.Request) bool {
 			return strings.HasSuffix(req.URL.Path, "/_catalog") || strings.HasSuffix(req.URL.Path, "/tags/list") || strings.Contains(req.URL.Path, "/referrers/")
@@ -347,9 +322,6 @@ func c05(env *core.Env, unify bool) {
 		}
 		page2 := 0
 		outer.Mutate = func(req *http.Request, resp *simnet.Response) {
-			if limitMutate != nil {
-				limitMutate(req, resp)
-			}
 			if !isList(req) {
 				return
 			}
@@ -669,4 +641,67 @@ func c05large(env *core.Env) {
 	if budget := (nItems+pageSize-1)/pageSize + 2; nreq > budget {
 		env.Failf(class("too-many-requests"), "%s needed %d requests for %d items with page size %d (budget %d)", op, nreq, nItems, pageSize, budget)
 	}
+}
+
+// ownLimitRegistry is a registry in front of inner that never returns more than
+// limit items per list page.
+func ownLimitRegistry(env *core.Env, inner http.Handler, limit int, tokenLinks bool) http.Handler {
+	return http.HandlerFunc(func(w http.ResponseWriter, req *http.Request) {
+		if !strings.HasSuffix(req.URL.Path, "/_catalog") && !strings.HasSuffix(req.URL.Path, "/tags/list") {
+			inner.ServeHTTP(w, req)
+			return
+		}
+		orig := req.URL.Query()
+		q := req.URL.Query()
+		if tok := q.Get("next_page"); tok != "" {
+			last, err := base64.RawURLEncoding.DecodeString(tok)
+			if err != nil {
+				http.Error(w, "bad continuation token", http.StatusBadRequest)
+				return
+			}
+			q.Del("next_page")
+			q.Set("last", string(last))
+		}
+		r2 := req.Clone(req.Context())
+		u := *req.URL
+		u.RawQuery = q.Encode()
+		r2.URL = &u
+		r2.RequestURI = u.RequestURI()
+		rec := httptest.NewRecorder()
+		inner.ServeHTTP(rec, r2)
+		body := rec.Body.Bytes()
+		hdr := rec.Header().Clone()
+		if rec.Code == 200 {
+			var doc map[string]json.RawMessage
+			if json.Unmarshal(body, &doc) == nil {
+				key := "tags"
+				if _, ok := doc["repositories"]; ok {
+					key = "repositories"
+				}
+				var items []string
+				if json.Unmarshal(doc[key], &items) == nil && len(items) > limit {
+					env.Fault("registry-cuts-page-to-own-limit")
+					items = items[:limit]
+					doc[key], _ = json.Marshal(items)
+					body, _ = json.Marshal(doc)
+					next := url.Values{}
+					if n := orig.Get("n"); n != "" {
+						next.Set("n", n)
+					}
+					if tokenLinks {
+						next.Set("next_page", base64.RawURLEncoding.EncodeToString([]byte(items[len(items)-1])))
+					} else {
+						next.Set("last", items[len(items)-1])
+					}
+					hdr.Set("Link", fmt.Sprintf("<%s?%s>; rel=\"next\"", req.URL.Path, next.Encode()))
+				}
+			}
+		}
+		hdr.Set("Content-Length", fmt.Sprint(len(body)))
+		for k, v := range hdr {
+			w.Header()[k] = v
+		}
+		w.WriteHeader(rec.Code)
+		w.Write(body)
+	})
 }
